@@ -45,7 +45,9 @@ CLAIMED = {
          "symbolic length 1..64; on every one of the ~11k feasible paths (the registry lookups fork over all live classes) it "
          "is proved that no exception escapes, the result is a Command whose frame is a ForwardFrame with the same width and "
          "bits, str() of it terminates without exception, the input frame is unchanged and no object that existed before "
-         "the call (registries, map, frame) is stored to.",
+         "the call (registries, map, frame) is stored to. BOUNDED stand-in next to the purity proof: ~10^5 ordered pairs from a "
+         "pool of frames around the two command lengths, second decode == decode in a pristine forked process (gives an actual "
+         "pair of frames when decoding keeps state).",
     design_ref="DESIGN.md 6 (C01)",
     technique="contract-based deductive verification: symbolic execution of the real decode paths against Frame/Address "
               "contracts, postconditions from the property, z3 QF_BV",
@@ -99,7 +101,9 @@ CLAIMED = {
          "the documented number, scaled number, temperature, boolean, string; number->raw->number and string->raw->string "
          "are proved to be the identity over the full range / every length; version texts are compared natively on their "
          "complete finite domain; the declared memory map, overlap-freedom, lockability and mask patterns are compared "
-         "exhaustively with an independently transcribed layout table.",
+         "exhaustively with an independently transcribed layout table. BOUNDED stand-in: number->raw->number natively on "
+         "boundary and random numbers of every plain numeric value (decides when an implementation leaves integer arithmetic, "
+         "where the deductive unit is undecided).",
     design_ref="DESIGN.md 6 (C11)",
     technique="contract-based deductive verification: refinement against spec functions (z3 QF_BV) + exhaustive checks of the "
               "finite declaration tables",
@@ -143,7 +147,9 @@ CLAIMED = {
          "ones rejected before any command; one silence or framing error at any step yields None or DALISequenceError. The "
          "discovery scan is verified with the loop rule on both of its loops: for an arbitrary device A and instance I the "
          "map entry equals the instance type iff A was scanned, answered cleanly, is healthy, has instance I, I is enabled and "
-         "its type was read, and is unchanged otherwise; the scan is bracketed by START/STOP QUIESCENT MODE to broadcast.",
+         "its type was read, and is unchanged otherwise; the scan is bracketed by START/STOP QUIESCENT MODE to broadcast. "
+         "BOUNDED stand-in next to the loop rule: the scan of one device with <= 3 instances and of two devices with <= 1, "
+         "both loops unrolled.",
     design_ref="DESIGN.md 6 (C13), 3.6, 3.7",
     technique="contract-based deductive verification: generators verified as procedures against an assumed unit contract; "
               "loop invariants (initiation / arbitrary iteration / exit) for the scan; z3 QF_BV",
@@ -159,7 +165,8 @@ CLAIMED = {
          "verified with the loop rule over a list of symbolic length (invariant: entry j is the unit's byte or None, DTR0 = j, "
          "write-enable cleared after the first read, image unchanged) and reports exactly the fully implemented values, each "
          "equal to the interpretation of the (latched) snapshot bytes; afterwards every location other than the lock byte "
-         "is unchanged and the bank is not left latched.",
+         "is unchanged and the bank is not left latched. BOUNDED stand-in next to the loop rule: the same obligations with the "
+         "loop unrolled for concrete last accessible locations 0..9 on every bank (no loop specification involved).",
     design_ref="DESIGN.md 6 (C09), 3.6, 3.7",
     technique="contract-based deductive verification: generators as procedures against an assumed unit contract, loop "
               "invariant for the whole-bank read, callee contract (uninterpreted result) for from_list; z3 QF_BV",
@@ -192,7 +199,7 @@ CLAIMED = {
          "search precondition is maintained; prologue, restart after a clash and the final TERMINATE have the prescribed "
          "shape. BOUNDED (not proved): what the gear ends up holding - the whole sequence is driven natively against the "
          "executable population contract for every population of <= 3 units, pre-existing addresses, five permitted sets, both "
-         "modes, dry run, two arbitrary draws per unit plus faulty units, checking distinct / permitted / unused stored "
+         "modes, dry run, two draws per unit over both ends of the search space and their neighbours plus faulty units, checking distinct / permitted / unused stored "
          "addresses and untouched non-participants.",
     design_ref="DESIGN.md 6 (C07)",
     technique="contract-based deductive verification: _find_next (recursion via its own contract + variant) and the whole "
@@ -237,7 +244,9 @@ CLAIMED = {
          "invariant (list indices in bounds included) and, when the byte completes a frame, to deliver exactly the items the "
          "reference assigns to it (backward-frame values, transmit confirmations, observed commands with the frame bits, "
          "device info / settings / gateway replies) or to drop it (bad checksum, unknown type, length that cannot fit) and "
-         "resume; data_received is proved to be the fold of _process_byte, which gives chunking independence by induction.",
+         "resume; data_received is proved to be the fold of _process_byte, which gives chunking independence by induction. A "
+         "LUBA frame-sent event yields one confirmation with the frame id and the frame decoded under the device type of the "
+         "previous TRANSMITTED frame; the device-type memories of the transmitted and the observed stream do not disturb each other.",
     design_ref="DESIGN.md 6 (C19)",
     technique="contract-based deductive verification: representation invariant + refinement of the byte step function "
               "against a reference deframer, callee contract for Command.from_frame; z3 QF_BV",
